@@ -178,7 +178,7 @@ def run(ck, m):
                 consts[f"{cn}.{norm(s.targets[0])}"] = s.value.value
     ck.ob("R3", cdc, consts.get("a.TRANS_DISP") == "T" and consts.get("t.DIRECT") == "d" and consts.get("C.STAY") == 1 and consts.get("o.ZLIB") == "z", "protocol constants a.TRANS_DISP='T', t.DIRECT='d', C.STAY=1, o.ZLIB='z'", stmt="kitty protocol constants")
     gcd = m.get(KT, "Transmission.get_control_data")
-    ck.ob("R3", gcd, "f'{key}={value}'" in norm(gcd) and "asdict(self.control).items()" in norm(gcd) and "if value is not None" in norm(gcd), "control data must list key=value for every non-None key", stmt="get_control_data: key=value for non-None keys")
+    ck.ob("R3", gcd, "f'{key}={value}'" in norm(gcd) and "asdict(self.control).items()" in norm(gcd) and ("if value is not None" in norm(gcd) or "if not value is None" in norm(gcd)), "control data must list key=value for every non-None key", stmt="get_control_data: key=value for non-None keys")
     # iterm2 keys: read off the symbolic output shape (tiv.emit) - the text between ITERM2_START and the ':' that ends the arguments
     from tiv import emit
     ienv = Folder(m.tree("_ctlseqs.py")).env
@@ -333,8 +333,10 @@ def run(ck, m):
               "would still declare o=z (nothing resets it)", stmt="compress: o=ZLIB under {t==DIRECT, not _compressed, level} only")
         ck.ob("R6", pl[0], norm(pl[0].value) == "compress(self.payload, self.level)", "the payload must be zlib-compressed at the requested level", stmt="compress: payload = compress(payload, level)")
     pi = m.get(KT, "Transmission.__post_init__")
-    iff = next((s for s in pi.body if isinstance(s, ast.If) and norm(s.test) == "self.level"), None)
-    ok = iff is not None and [norm(s) for s in iff.body] == ["self.compress()"] and [norm(s) for s in iff.orelse] == ["self.control.o = None"] and any(norm(s) == "self._compressed = False" for s in pi.body)
+    # (either polarity / guard-clause form: decided on the literal condition sets of the call and of the reset)
+    cc_ = [c for c in body_walk(pi) if isinstance(c, ast.Call) and norm(c) == "self.compress()"]
+    rs_ = [st for t, st in stores_in(ast.Module(body=pi.body, type_ignores=[])) if norm(t) == "self.control.o" and norm(getattr(st, "value", None)) == "None"]
+    ok = len(cc_) == 1 and len(rs_) == 1 and conds(cc_[0]) == {"self.level"} and conds(rs_[0]) == {"not self.level"} and any(norm(s) == "self._compressed = False" for s in pi.body)
     ck.ob("R6", pi, ok, "__post_init__ must compress when level is set and otherwise reset control.o to None (the ControlData may come from a previous strip)", stmt="__post_init__: compress or reset o")
     for rel, q, fn in m.functions():
         for c in body_walk(fn):
